@@ -7,7 +7,7 @@ From Coq Require Import List Arith Lia Bool Sorting.Sorted Permutation.
 From Kiki Require Import Base.Ord Base.OrdProofs Base.Chars Data DataProofs Oset.Model Oset.Proofs Ast.ValidateProofs Ast.VWF
   LR.Driver LR.Grammar LR.Inv LR.Viable LR.Least LR.Validate LR.ValidateProofs
   Build.Machine Build.Table Build.TableProofs Build.FillProofs Build.TableSpec Build.ClosureProofs Build.LoopProofs
-  Build.LoopInv Build.NormProofs Build.MachineSpec Build.DerProofs Build.FirstProofs Emit.Parser Emit.PtableProofs.
+  Build.LoopInv Build.NormProofs Build.MachineSpec Build.DerProofs Build.FirstProofs Build.FirstLeast Build.CanonMachine LR.FirstExact Emit.Parser Emit.PtableProofs.
 Import ListNotations.
 Open Scope nat_scope.
 
@@ -40,6 +40,7 @@ Section Gen.
   Hypothesis Hcx_start : cx_start cx = vf_start v.
   Hypothesis HFI : FInv (get_rules v) (cx_first cx).
   Hypothesis HFC : forall ru, In ru (get_rules v) -> rule_closed (cx_first cx) ru.
+  Hypothesis HFJ : Just (get_rules v) (cx_first cx).
   Hypothesis HM : MInv cx m.
   Hypothesis HT : table_spec m v t.
   Hypothesis HP : ptable_of v t = Some pt.
@@ -304,6 +305,56 @@ Section Gen.
     - apply forallb_forall. intros c Hc. apply mem_nat_In. rewrite Hfo. rewrite Hf in Hc.
       apply in_map_iff in Hc as (u & <- & Hu). apply in_map, Hincl, Hu.
     - rewrite Hn, Hno. destruct (fnull fm (field_symbols (ru_fieldset ru))); [rewrite Heps; reflexivity|reflexivity].
+  Qed.
+
+  (* the FIRST table is the least one: every entry is justified by the rules, by position *)
+  Lemma nder_pnull :
+    (forall n, nder rules n -> forall c, position_str n nn = Some c -> pnull pt c) /\
+    (forall syms, nders rules syms -> forall ps, Forall2 R syms ps -> pnulls pt ps).
+  Proof.
+    apply nder_nders_mind.
+    - intros ru Hin _ IH c Hc. apply In_nth_error in Hin as (r & Hr).
+      destruct (Forall2_nth_l _ _ _ prules_rel r ru Hr) as (pru & Hp & Hpr).
+      destruct (prule_parts ru pru Hpr) as (Hlhs & Hrhs & _). rewrite Hlhs in Hc. injection Hc as <-.
+      apply (pn_rule pt r pru Hp). apply IH, Hrhs.
+    - intros ps H. inversion H. constructor.
+    - intros n r _ IH1 _ IH2 ps H. inversion H as [|? p ? ps' Hp Hps]; subst.
+      apply R_N in Hp as (c & -> & Hc). constructor; [apply IH1, Hc|apply IH2, Hps].
+  Qed.
+
+  Lemma fder_pfirst :
+    (forall n u, fder rules n u -> forall c, position_str n nn = Some c -> pfirst pt c (tix u)) /\
+    (forall syms u, fders rules syms u -> forall ps, Forall2 R syms ps -> pfirsts pt ps (tix u)).
+  Proof.
+    apply fder_fders_mind.
+    - intros ru u Hin _ IH c Hc. apply In_nth_error in Hin as (r & Hr).
+      destruct (Forall2_nth_l _ _ _ prules_rel r ru Hr) as (pru & Hp & Hpr).
+      destruct (prule_parts ru pru Hpr) as (Hlhs & Hrhs & _). rewrite Hlhs in Hc. injection Hc as <-.
+      apply (pf_rule pt r pru _ Hp). apply IH, Hrhs.
+    - intros u r ps H. inversion H as [|? p ? ps' Hp Hps]; subst. apply R_T in Hp as (c & -> & _ & <-). constructor.
+    - intros n r u _ IH ps H. inversion H as [|? p ? ps' Hp Hps]; subst.
+      apply R_N in Hp as (c & -> & Hc). apply pfs_here. apply IH, Hc.
+    - intros n r u Hn _ IH ps H. inversion H as [|? p ? ps' Hp Hps]; subst.
+      apply R_N in Hp as (c & -> & Hc). apply pfs_skip; [apply (proj1 nder_pnull n Hn c Hc)|apply IH, Hps].
+  Qed.
+
+  Lemma ft_least : FirstLeast pt ft.
+  Proof.
+    assert (Hpos : forall c, c < nnt -> exists n, position_str n nn = Some c).
+    { intros c Hc. destruct (nth_error nn c) as [n|] eqn:En; [|apply nth_error_None in En; lia].
+      exists n. apply position_str_nodup; [apply (vw_nts v HV)|exact En]. }
+    assert (Hout : forall c, nnt <= c -> nth c ft ([], false) = ([], false)).
+    { intros c Hc. apply nth_overflow. unfold ft. rewrite map_length. exact Hc. }
+    split.
+    - intros c t0 Hin. destruct (Nat.lt_ge_cases c nnt) as [Hc|Hc].
+      + destruct (Hpos c Hc) as (n & Hn). destruct (ft_at n c Hn) as (Hf & _). rewrite Hf in Hin.
+        apply in_map_iff in Hin as (u & <- & Hu).
+        apply (proj1 fder_pfirst n u); [|exact Hn]. apply (just_or_empty rules fm n HFJ), Hu.
+      + unfold first_of in Hin. rewrite (Hout c Hc) in Hin. destruct Hin.
+    - intros c Hnl. destruct (Nat.lt_ge_cases c nnt) as [Hc|Hc].
+      + destruct (Hpos c Hc) as (n & Hn). destruct (ft_at n c Hn) as (_ & Hf). rewrite Hf in Hnl.
+        apply (proj1 nder_pnull n); [|exact Hn]. apply (just_or_empty rules fm n HFJ), Hnl.
+      + unfold nullable_of in Hnl. rewrite (Hout c Hc) in Hnl. discriminate.
   Qed.
 
   (* the candidates of the closure, by position, come from the lookaheads by name *)
@@ -616,7 +667,7 @@ Theorem generated_tables_invariants hot hoa fu v m t pt :
   validated_ast_to_machine hot fu v = Ok m -> machine_to_table hoa m v = Ok t -> ptable_of v t = Some pt ->
   exists (ann : list (list Grammar.item)) (ft : first_table),
     Inv pt ann (fseq ft) /\ Inv2 pt ann /\ (forall P (kind : P -> nat), FirstOK kind pt (fseq ft)) /\ Inv3 pt ann /\
-    Least pt ann (fseq ft).
+    Least pt ann (fseq ft) /\ (first_closed ft (pt_rules pt) = true /\ FirstLeast pt ft).
 Proof.
   intros HV Hpt Hpa Hm Ht HP. unfold validated_ast_to_machine in Hm.
   apply bind_ok in Hm as (cx & Hcx & Hm). apply bind_ok in Hm as (start & Hstart & Hm).
@@ -628,12 +679,15 @@ Proof.
   pose proof (machine_spec cx Hfmok hot (fu_build fu) (fu_closure fu) m start Hpt Hstart Hm) as HM.
   pose proof (machine_to_table_spec m v hoa t Hpa Ht) as HT.
   pose proof (machine_der cx Hfmok hot (fu_build fu) (fu_closure fu) m start Hpt Hstart Hm) as HDer.
-  exists (ann v m), (ft v cx). split; [|split; [|split; [|split]]].
+  pose proof (get_first_sets_least _ _ _ Hfm) as HFJ.
+  exists (ann v m), (ft v cx). split; [|split; [|split; [|split; [|split; [|split]]]]].
   - apply gen_Inv with (t := t) (cx := cx); try assumption; reflexivity.
   - apply gen_Inv2 with (t := t) (cx := cx); try assumption; reflexivity.
   - intros P kind. apply gen_FirstOK with (m := m) (t := t) (cx := cx); try assumption; reflexivity.
   - apply gen_Inv3 with (t := t) (cx := cx); try assumption; reflexivity.
   - apply gen_Least with (t := t) (cx := cx); try assumption; reflexivity.
+  - apply ft_closed with (m := m) (t := t); try assumption; reflexivity.
+  - apply ft_least with (m := m) (t := t); try assumption; reflexivity.
 Qed.
 
 (* the machine the generator builds for a validated file: closed, least, one state per core *)
@@ -654,5 +708,36 @@ Proof.
   exists cx. split; [reflexivity|]. split; [reflexivity|]. split; [|split].
   - apply (machine_spec cx Hfmok hot (fu_build fu) (fu_closure fu) m start Hpt Hstart Hm).
   - apply (machine_der cx Hfmok hot (fu_build fu) (fu_closure fu) m start Hpt Hstart Hm).
+  - apply (machine_uniq cx Hfmok hot (fu_build fu) (fu_closure fu) m start Hstart Hm).
+Qed.
+
+(* ... and that is the textbook LALR(1) automaton, for EVERY validated file (accepted or not):
+   each state is the merge of the canonical LR(1) item sets I(g) — g a viable prefix leading to
+   it — all of which have exactly its core; distinct states have distinct cores; and the closure
+   rule computes its lookaheads from exactly FIRST / nullable of the grammar. *)
+Theorem machine_is_merged_canonical_LR1 hot fu v m :
+  (forall l, Permutation (hot l) l) -> validated_ast_to_machine hot fu v = Ok m ->
+  exists cx, cx_rules cx = get_rules v /\ cx_start cx = vf_start v /\
+    (forall n, (forall t, In t (fs_terminals (fm_get_or_empty (cx_first cx) n)) <-> fder (get_rules v) n t) /\
+               (fs_eps (fm_get_or_empty (cx_first cx) n) = true <-> nder (get_rules v) n)) /\
+    (forall k st it, nth_error (m_states m) k = Some st ->
+                     (In it st <-> exists g, npath m g k /\ nvalid1 cx g it)) /\
+    (forall g k, npath m g k -> forall st it, nth_error (m_states m) k = Some st -> In it st ->
+                 exists it', nvalid1 cx g it' /\ core_of it' = core_of it) /\
+    (forall i j si sj, nth_error (m_states m) i = Some si -> nth_error (m_states m) j = Some sj -> same_cores si sj -> i = j).
+Proof.
+  intros Hpt Hm. unfold validated_ast_to_machine in Hm.
+  apply bind_ok in Hm as (cx & Hcx & Hm). apply bind_ok in Hm as (start & Hstart & Hm).
+  unfold make_context in Hcx. apply bind_ok in Hcx as (fm & Hfm & Hcx). injection Hcx as <-.
+  destruct (get_first_sets_spec _ _ _ Hfm) as (HFI & _).
+  set (cx := {| cx_start := vf_start v; cx_rules := get_rules v; cx_first := fm |}) in *.
+  assert (Hfmok : fm_ok cx).
+  { intros n fs u Hg Hu. destruct (fi_occurs _ _ HFI n fs u Hg Hu) as (ru & Hru & Hs). exists ru. auto. }
+  pose proof (machine_spec cx Hfmok hot (fu_build fu) (fu_closure fu) m start Hpt Hstart Hm) as HM.
+  pose proof (machine_der cx Hfmok hot (fu_build fu) (fu_closure fu) m start Hpt Hstart Hm) as HD.
+  exists cx. split; [reflexivity|]. split; [reflexivity|]. split; [|split; [|split]].
+  - exact (get_first_sets_exact _ _ _ Hfm).
+  - intros k st it Hst. exact (canon_merge cx m HM HD k st it Hst).
+  - intros g k Hp st it Hst Hin. exact (canon_same_core cx m HM g k Hp st it Hst Hin).
   - apply (machine_uniq cx Hfmok hot (fu_build fu) (fu_closure fu) m start Hstart Hm).
 Qed.
